@@ -99,3 +99,47 @@ def funcImports (bodyReq modelOpsets : List (String × Nat)) : List (String × N
   policy (bodyReq ++ modelOpsets)
 
 end Func
+
+namespace Func
+
+/-! ### opset requirements of a (function body) build, over nested bodies
+
+`compile_graph` collects `opset_req` from every node's `update_metadata` in the node loop and, after
+the loop, merges what the builds of the nodes' body graphs (If/Loop/Scan branches) collected. A node
+is abstracted to its own requirement set (`Node.opset_req`; for a `Function` node that already
+includes its body build's) and its body graphs. -/
+mutual
+inductive RNode where
+  | mk (req : List (String × Nat)) (subs : List RGraph)
+inductive RGraph where
+  | mk (nodes : List RNode)
+end
+
+mutual
+/-- `BuildResult.opset_req` of `compile_graph(g)` (as a list; the code uses a set) -/
+def reqG : RGraph → List (String × Nat)
+  | .mk nodes => ownReq nodes ++ subReq nodes
+def ownReq : List RNode → List (String × Nat)
+  | [] => []
+  | .mk r _ :: rest => r ++ ownReq rest
+def subReq : List RNode → List (String × Nat)
+  | [] => []
+  | .mk _ subs :: rest => reqGs subs ++ subReq rest
+def reqGs : List RGraph → List (String × Nat)
+  | [] => []
+  | g :: gs => reqG g ++ reqGs gs
+end
+
+mutual
+/-- the requirement of every node at any nesting depth, by plain structural descent -/
+def allReqG : RGraph → List (String × Nat)
+  | .mk nodes => allReqNs nodes
+def allReqNs : List RNode → List (String × Nat)
+  | [] => []
+  | .mk r subs :: rest => r ++ (allReqGs subs ++ allReqNs rest)
+def allReqGs : List RGraph → List (String × Nat)
+  | [] => []
+  | g :: gs => allReqG g ++ allReqGs gs
+end
+
+end Func
